@@ -64,14 +64,21 @@ def make_batch(case):
     alt = np.array([POOL_ALT[(g // len(POOL_BETA)) % len(POOL_ALT)] for g in gi], dtype=np.float64)
     E = np.array([energy(en[(i * 7 + i // len(en)) % len(en)]) for i in range(n)], dtype=np.float64)
     lat = np.arange(n, dtype=np.float64)  # event index doubles as its marker
-    lon = -np.arange(n, dtype=np.float64)
+    if case.get("sites"):
+        lat = lat % int(case["sites"])  # ... unless several events share a site (point source, compact region)
+    lon = -lat
     return beta, alt, E, lat, lon
 
 
-def reference(det, beta, alt, E, lat, lon, dtype="float32"):
+def site_cloud(la, lo):
+    """A pure function of the event's site: cloud tops between 0.5 and 12.5 km."""
+    return 0.5 + (float(la) * 2.7) % 12.0
+
+
+def reference(det, beta, alt, E, lat, lon, dtype="float32", cloudf=None):
     k = kernel(det, dtype)
     with quiet():
-        res = [k.run(b, a, e, la, lo, None) for b, a, e, la, lo in zip(beta, alt, E, lat, lon)]
+        res = [k.run(b, a, e, la, lo, cloudf) for b, a, e, la, lo in zip(beta, alt, E, lat, lon)]
     d, c = zip(*res)
     return np.asarray(d), np.array(c)
 
@@ -121,6 +128,11 @@ class Schedule:
             self._cfg = dask.config.set(scheduler="synchronous")
         elif kind == "sync":
             self._cfg = dask.config.set(scheduler="synchronous")
+        elif kind == "preempt2":
+            from ..interleave import preempting_dask_get
+
+            self.stats = {}
+            self._cfg = dask.config.set(scheduler=preempting_dask_get(int(self.case["preempt"][0]), self.stats))
         elif kind == "threads":
             self._cfg = dask.config.set(scheduler="threads", num_workers=self.case["workers"])
         elif kind == "processes":
@@ -180,7 +192,8 @@ def body_equal(case):
     # the hook is only in the environment while the object is constructed - whatever evaluates the batch (threads,
     # worker processes that receive a pickled copy) has to work with the object it was given
     dtype = case.get("dtype", "float32")
-    want_d, want_c = reference(det, beta, alt, E, lat, lon, dtype)
+    cloudf = site_cloud if case.get("clouds") else None
+    want_d, want_c = reference(det, beta, alt, E, lat, lon, dtype, cloudf)
     k = kernel(det, dtype)
     before = _state(k)
     import cloudpickle
@@ -193,11 +206,15 @@ def body_equal(case):
     with quiet():
         with sched:
             with cut(f"CphotAng.__call__ ({n} events, partition size {case['psize']}, scheduler {case['sched']})"):
-                got_d, got_c = k(beta, alt, E, lat, lon, None)
+                got_d, got_c = k(beta, alt, E, lat, lon, cloudf)
     require([a.tobytes() for a in (beta, alt, E, lat, lon)] == snap, "the batch call modified its input arrays")
     got_d, got_c = np.asarray(got_d), np.asarray(got_c)
     labels, psize, nparts = _labels(case, n, sched.executed)
     labels.add("kernel_" + dtype)
+    if cloudf is not None:
+        labels.add("site_dependent_clouds")
+    if getattr(sched, "stats", {}).get("preempted"):
+        labels.add("partition_preempted")
     desc = f"{n} events, partition size {psize} ({nparts} partitions), scheduler {case['sched']}, {dtype} kernel" + (f" order {sched.executed[:: max(1, psize)][:12]}" if sched.executed else "")
     require(got_d.shape == (n,) and got_c.shape == (n,), f"batch returned shapes {got_d.shape}, {got_c.shape} ({desc})")
     require(got_d.dtype == want_d.dtype and got_c.dtype == want_c.dtype, f"batch returned dtypes {got_d.dtype}, {got_c.dtype}; one-at-a-time gives {want_d.dtype}, {want_c.dtype}")
@@ -208,7 +225,7 @@ def body_equal(case):
             f"batch result differs from one-at-a-time evaluation at event {i} of {desc}: batch ({got_d[i]!r}, {got_c[i]!r}) vs ({want_d[i]!r}, {want_c[i]!r}); {bad.size} events differ "
             f"(event {i}: beta={math.degrees(beta[i]):.3f} deg alt={alt[i]} E={E[i]!r}; previous event beta={math.degrees(beta[i - 1]):.3f} alt={alt[i - 1]} E={E[i - 1]!r})"
         )
-    if sched.executed:
+    if sched.executed and not case.get("sites"):
         require(sorted(sched.executed) == list(range(n)), f"events evaluated {sorted(sched.executed)[:10]}..., expected each of the {n} events exactly once ({desc})")
     after = _state(k)
     require(after == before, f"the kernel object changed state during the batch call: {[a for a in after if after.get(a) != before.get(a)] + [a for a in before if a not in after]}")
@@ -286,6 +303,9 @@ def batch_strategy(max_n, scheds):
             "prio": st.permutations(list(range(40))),
             "workers": st.integers(1, 16),
             "dtype": st.sampled_from(["float32", "float64"]),
+            "clouds": st.booleans(),
+            "sites": st.sampled_from([None, None, 1, 2, 3, 7]),
+            "preempt": st.lists(st.one_of(st.integers(0, 80), st.integers(0, 700), st.integers(0, 30000)), min_size=1, max_size=1),
         }
     )
 
@@ -316,6 +336,15 @@ SUBCHECKS = [
         lambda labels: "preempted" in labels,
         {"quick": 60, "thorough": 2400},
         doc="harness-owned thread schedule: evaluation A on a kernel object is suspended after its k-th package line (k generated), evaluation B (other geometry, energy, cloud top) runs on the same object, A resumes; both == their results on their own, bit for bit",
+        shrink=False,
+    ),
+    SubCheck(
+        "preempted_partitions",
+        batch_strategy(30, ["preempt2"]).map(lambda c: dict(c, psize=c["psize"] if c["psize"] in (1, 2, 7) else 2, n=c["n"] if c["n"] >= 5 else 5, clouds=True)),
+        body_equal,
+        lambda labels: "partition_preempted" in labels,
+        {"quick": 48, "thorough": 1600},
+        doc="harness-owned two-worker scheduler: the first partition task is suspended after its k-th package line (k generated), the second partition runs to completion, the first resumes; site-dependent cloud tops, shared sites; batch == one-at-a-time bit for bit",
         shrink=False,
     ),
     SubCheck(
